@@ -26,6 +26,7 @@ type Sink struct {
 	FailErr  error // error returned by the failing write
 	UsedAfterClose bool
 	CloseErr error // returned by Close (the handle still counts as closed)
+	Takes    bool  // the write itself takes a symbolic time (the clock advances before WriteTo returns)
 }
 
 func (s *Sink) WriteTo(b []byte, a netip.AddrPort) error {
@@ -38,7 +39,10 @@ func (s *Sink) WriteTo(b []byte, a netip.AddrPort) error {
 	}
 	s.Pkts = append(s.Pkts, append([]byte(nil), b...))
 	s.Dsts = append(s.Dsts, a)
-	s.Times = append(s.Times, V.NowNs())
+	s.Times = append(s.Times, V.NowNs()) // the instant the probe was handed to the network
+	if s.Takes {
+		V.ClockAdvance(time.Duration(V.U16("writeTakes")))
+	}
 	return nil
 }
 func (s *Sink) Close() error { s.Closed++; return s.CloseErr }
